@@ -76,10 +76,14 @@ namespace fastscapelib
                 std::unique_lock<std::mutex> lk(m_cv_m);
                 ++m_paused_count;
                 FS_VERIF_POINT(1, i);
+                // a condition variable may wake up without being notified: only resume() ends the pause
+                while (m_pause_requested)
+                {
 #ifdef FASTSCAPELIB_VERIF_HOOKS
-                if (!::fastscapelib::verif::spurious(i))
+                    if (!::fastscapelib::verif::spurious(i))
 #endif
-                m_cv.wait(lk);
+                    m_cv.wait(lk);
+                }
                 FS_VERIF_POINT(2, i);
                 --m_paused_count;
             };
@@ -122,6 +126,10 @@ namespace fastscapelib
         if (!m_paused)
         {
             wait();
+            {
+                std::lock_guard<std::mutex> lk(m_cv_m);
+                m_pause_requested = true;
+            }
             set_tasks(m_pause_jobs);
             run_tasks();
             m_paused = true;
@@ -145,6 +153,7 @@ namespace fastscapelib
                 // notify while holding the mutex: a worker that has counted itself as paused
                 // but has not reached wait() yet still holds it, so no wake-up can be lost
                 std::lock_guard<std::mutex> lk(m_cv_m);
+                m_pause_requested = false;
                 m_cv.notify_all();
             }
             FS_VERIF_POINT(4, m_size);
